@@ -307,8 +307,7 @@ def num_kind(a, b):
 
 def binop(ex, op, a, b, fr, inplace=False, node=None):
     from . import npmodels
-    if a.ty.kind == "arr" or b.ty.kind == "arr" or a.ty.kind == "g" or b.ty.kind == "g" or \
-            a.ty.kind == "elem" or b.ty.kind == "elem":
+    if a.ty.kind in ("arr", "g") or b.ty.kind in ("arr", "g") or a.ty.kind.startswith("elem") or b.ty.kind.startswith("elem"):
         return npmodels.binop(ex, op, a, b, fr, inplace, node)
     nk = num_kind(a, b)
     sym = {"Add": "+", "Sub": "-", "Mult": "*", "Div": "/"}.get(op)
@@ -399,7 +398,7 @@ def compare(ex, op, a, b, fr, node):
         from .speceval import same_term
         t = same_term(ex, a, b)
         return vbool(t if op == "Eq" else z3.Not(t))
-    if a.ty.kind in ("arr", "elem") or b.ty.kind in ("arr", "elem"):
+    if a.ty.kind == "arr" or b.ty.kind == "arr" or a.ty.kind.startswith("elem") or b.ty.kind.startswith("elem"):
         return npmodels.compare(ex, op, a, b, fr, node)
     if op in ("Is", "IsNot"):
         from .speceval import same_term
@@ -554,7 +553,7 @@ def slice_bounds(ex, n, sl, fr):
 def subscript(ex, v, sl, fr, node):
     from . import npmodels
     k = v.ty.kind
-    if k in ("arr", "g", "shape", "elem"):
+    if k in ("arr", "g", "shape", "elem", "ebounds"):
         return npmodels.subscript(ex, v, sl, fr, node)
     if k == "list":
         n = llen(ex, v)
